@@ -68,6 +68,10 @@ pub struct Edit {
 }
 #[derive(Clone, Debug, Serialize, Deserialize)]
 pub struct Step {
+    /// bit z set: zone z's name is spelled in upper case in this step's configuration (names
+    /// are case-insensitive: the zone is the same zone, with the same previous data)
+    #[serde(default)]
+    pub upper: u8,
     /// configured zones after this step, in `[[zones]]` order: (zone id, path variant)
     pub zones: Vec<(usize, usize)>,
     pub edits: Vec<Edit>,
@@ -312,7 +316,7 @@ impl Prop for C31 {
                 }
                 edits.push(Edit { zone, path, kind });
             }
-            steps.push(Step { zones: zones.clone(), edits, config_fault: if si > 0 && chance(r, 10) { range(r, 1, 3) as u8 } else { 0 }, advance_s: range(r, 1, 3) });
+            steps.push(Step { upper: if chance(r, 25) { r.below(32) as u8 } else { 0 }, zones: zones.clone(), edits, config_fault: if si > 0 && chance(r, 10) { range(r, 1, 3) as u8 } else { 0 }, advance_s: range(r, 1, 3) });
             if steps.last().unwrap().config_fault == 0 {
                 cur = zones;
             }
@@ -386,6 +390,10 @@ impl Prop for C31 {
                 let mut c = s.clone();
                 c.steps[i].config_fault = 0;
                 out.push(c);
+            }            if s.steps[i].upper != 0 {
+                let mut c = s.clone();
+                c.steps[i].upper = 0;
+                out.push(c);
             }
         }
         if !s.fs_faults.is_empty() {
@@ -428,7 +436,7 @@ impl Prop for C31 {
         h
     }
     fn rule() -> String {
-        "one execution = one history of 2-6 steps; each step edits the configuration (add/remove nested zones of a 5-zone universe incl. a CH-class zone, change a zone's path, reorder) and zone files (valid new version, syntax error, no SOA, no NS, out-of-zone record, a record of another class than the zone's, a file valid only for the other class, missing, directory, EIO after k octets - possibly transient: cleared later with content and mtime unchanged -, torn after k octets, unchanged, a main file that $INCLUDEs a second file holding the marker record, and edits of that include file alone: valid / broken / removed), sometimes breaks the configuration file itself (invalid TOML, duplicate zone, missing), then reloads - by calling the SIGHUP handler body, or (a sixth of the runs) by raising SIGHUP on the whole simulated daemon, started from a configuration file or from command-line zones - and queries every zone of the universe (marker TXT and SOA, own class); optional short reads on every file read; in a quarter of the runs 1-3 query threads run concurrently with every reload under a seeded schedule (random / PCT) and each of their answers must come from the state before or after that reload, and from the new state once the reload has returned. Non-trivial = at least one failing file or configuration; distinct = distinct scenario".into()
+        "one execution = one history of 2-6 steps; each step edits the configuration (add/remove nested zones of a 5-zone universe incl. a CH-class zone, change a zone's path, reorder, respell a zone's name in upper case) and zone files (valid new version, syntax error, no SOA, no NS, out-of-zone record, a record of another class than the zone's, a file valid only for the other class, missing, directory, EIO after k octets - possibly transient: cleared later with content and mtime unchanged -, torn after k octets, unchanged, a main file that $INCLUDEs a second file holding the marker record, and edits of that include file alone: valid / broken / removed), sometimes breaks the configuration file itself (invalid TOML, duplicate zone, missing), then reloads - by calling the SIGHUP handler body, or (a sixth of the runs) by raising SIGHUP on the whole simulated daemon, started from a configuration file or from command-line zones - and queries every zone of the universe (marker TXT and SOA, own class); optional short reads on every file read; in a quarter of the runs 1-3 query threads run concurrently with every reload under a seeded schedule (random / PCT) and each of their answers must come from the state before or after that reload, and from the new state once the reload has returned. Non-trivial = at least one failing file or configuration; distinct = distinct scenario".into()
     }
     fn assumptions() -> Vec<String> {
         vec![
@@ -680,6 +688,7 @@ pub(crate) fn write_config(step: &Step, cfg_path: &std::path::Path, preamble: &s
     }
     for (z, pv) in &step.zones {
         let (name, class) = UNIVERSE[*z];
+        let name = if step.upper >> *z & 1 == 1 { name.to_ascii_uppercase() } else { name.to_string() };
         toml.push_str(&format!("[[zones]]\nname = \"{name}\"\nclass = \"{}\"\npath = \"{}\"\n", class_str(class), rel_path_of(*z, *pv)));
     }
     match step.config_fault {
